@@ -50,7 +50,12 @@ class Lin(object):
         return [a for a, _ in self.t]
 
     def mentions(self, pred):
-        return any(pred(a) for a, _ in self.t)
+        for a, _ in self.t:
+            if pred(a):
+                return True
+            if a[0] == "mem" and len(a) > 2 and any(pred(x) for x in a[2]):
+                return True     # a memory read through a pointer that depends on such an atom
+        return False
 
     def subst(self, atom, repl):
         """replace atom by Lin repl"""
@@ -82,6 +87,8 @@ def atom_str(a):
         return "%s@%s" % (a[2] if len(a) > 2 else "v", a[1])
     if a[0] == "phi":
         return "phi(%s)" % a[2].split("#")[0]
+    if a[0] == "mem":
+        return "mem[%s]" % a[1]
     return ":".join(str(x).split("#")[0] for x in a)
 
 
